@@ -75,6 +75,26 @@ fn equal_up_to_version_stamp(a: &[u8], b: &[u8]) -> bool {
     true
 }
 
+/// give the first glyph that has a single codepoint a second one (private use), in the notation of the file's format version
+fn add_codepoint(mut t: gplist::V) -> Option<gplist::V> {
+    use gplist::V;
+    let V::Dict(items) = &mut t else { return None };
+    let v3 = items.iter().any(|(k, v)| k.trim_matches('"') == ".formatVersion" && matches!(v, V::Atom(a) if a.trim_matches('"') == "3"));
+    let (_, V::Array(glyphs)) = items.iter_mut().find(|(k, _)| k.trim_matches('"') == "glyphs")? else { return None };
+    for gl in glyphs.iter_mut() {
+        let V::Dict(gi) = gl else { continue };
+        if let Some((_, u)) = gi.iter_mut().find(|(k, _)| k.trim_matches('"') == "unicode") {
+            if let V::Atom(a) = u.clone() {
+                let a = a.trim_matches('"').to_string();
+                if a.contains(',') || a.is_empty() { continue; }
+                *u = if v3 { V::Array(vec![V::Atom(a), V::Atom("57345".into())]) } else { V::Atom(format!("\"{a},E001\"")) };
+                return Some(t);
+            }
+        }
+    }
+    None
+}
+
 fn glyphs_fixtures(ctx: &Ctx) -> Vec<PathBuf> { fixtures(ctx).iter().filter(|p| p.extension().and_then(|e| e.to_str()) == Some("glyphs")).cloned().collect() }
 fn ufo_fixtures(ctx: &Ctx) -> Vec<PathBuf> { fixtures(ctx).iter().filter(|p| p.extension().and_then(|e| e.to_str()) == Some("ufo")).cloned().collect() }
 
@@ -96,10 +116,19 @@ pub fn check_glyphs(ctx: &Ctx, genome: &[u16]) -> CaseReport {
     // or text in memory has no such directory (a documented difference): counted, not compared
     if text.contains("include(") { rep.class("skipped:feature-include"); rep.discard = true; return rep; }
     let opts = BuildOpts::default();
-    let reference = compile_path(path, &opts);
-    if reference.is_err() { rep.class("reference-route-fails"); }
     let scratch = Scratch::new(&ctx.work);
     let fname = path.file_name().unwrap().to_string_lossy().to_string();
+    // half of the cases first give one encoded glyph a second codepoint (the shape `unicode = (65,57345);` that
+    // Glyphs writes for such glyphs) and take that file as the design
+    let (text, path): (String, PathBuf) = if g.chance(1, 2) {
+        match gplist::parse(&text).ok().and_then(|t| add_codepoint(t)) {
+            Some(t2) => { rep.class("design:second-codepoint-added"); let t = gplist::to_text(&t2, &gplist::Style { spaces_around_eq: 1, ..Default::default() }); let p = scratch.path().join("design").join(&fname); std::fs::create_dir_all(p.parent().unwrap()).unwrap(); std::fs::write(&p, &t).unwrap(); (t, p) }
+            None => (text, path.clone()),
+        }
+    } else { (text, path.clone()) };
+    let path = &path;
+    let reference = compile_path(path, &opts);
+    if reference.is_err() { rep.class("reference-route-fails"); }
     let other: Result<Vec<u8>, BuildError> = match variant {
         "memory" => compile_glyphs_text(&text, &opts),
         "cli" => run_cli(&fontc_dev(), path, &opts, scratch.path(), 4, false).map_err(BuildError::Reported),
@@ -121,14 +150,19 @@ pub fn check_glyphs(ctx: &Ctx, genome: &[u16]) -> CaseReport {
         }
     };
     compare(&mut rep, &format!("glyphs-file-vs-{variant}"), &reference, &other, variant != "cli");
+    // recorded finding: the codepoint-list notation is only understood behind a bare `unicode` key
+    if variant == "quoting" && text.contains("unicode = (") { if let Err(e) = &other { if e.text().contains("Expected string value") { for f in rep.failures.iter_mut() { f.signature = "quoted-unicode-key-with-codepoint-list-not-read".into(); } } } }
     rep.nontrivial = reference.as_ref().map(|b| b.len() > 1500).unwrap_or(false);
     if rep.failures.is_empty() { rep.artifacts.clear(); } else { rep.artifacts.push((format!("original/{fname}"), text.into_bytes())); }
     rep
 }
 
-fn wrapper_designspace(ufo_name: &str, skip_export: Option<&str>) -> String {
+fn wrapper_designspace(ufo_name: &str, skip_export: Option<&str>, with_instance: bool) -> String {
+    let inst = if with_instance { "  <instances>\n    <instance name=\"Wrapped Text\" familyname=\"Wrapped\" stylename=\"Text\" postscriptfontname=\"Wrapped-Text\">\n      <location>\n        <dimension name=\"Weight\" xvalue=\"400\"/>\n      </location>\n    </instance>\n  </instances>\n" } else { "" };
     let lib = skip_export.map(|a| format!("  <lib>\n    <dict>\n      <key>public.skipExportGlyphs</key>\n{a}\n    </dict>\n  </lib>\n")).unwrap_or_default();
-    format!("<?xml version='1.0' encoding='UTF-8'?>\n<designspace format=\"4.1\">\n  <sources>\n    <source filename=\"{ufo_name}\"/>\n  </sources>\n{lib}</designspace>\n")
+    // the designspace reader wants a location with at least one dimension: an axis whose minimum, default and
+    // maximum coincide describes the same single-master design
+    format!("<?xml version='1.0' encoding='UTF-8'?>\n<designspace format=\"4.1\">\n  <axes>\n    <axis tag=\"wght\" name=\"Weight\" minimum=\"400\" maximum=\"400\" default=\"400\"/>\n  </axes>\n  <sources>\n    <source filename=\"{ufo_name}\">\n      <location>\n        <dimension name=\"Weight\" xvalue=\"400\"/>\n      </location>\n    </source>\n  </sources>\n{inst}{lib}</designspace>\n")
 }
 
 /// the `<array>…</array>` value of public.skipExportGlyphs in a lib.plist, verbatim
@@ -204,7 +238,9 @@ pub fn check_ufo(ctx: &Ctx, genome: &[u16]) -> CaseReport {
         "designspace-wrapper" => {
             let lib = std::fs::read_to_string(ufo_dir.join("lib.plist")).unwrap_or_default();
             let ds = ufo_dir.parent().unwrap().join("wrapper.designspace");
-            std::fs::write(&ds, wrapper_designspace(&ufo_name, skip_export_array(&lib).as_deref())).unwrap();
+            let with_instance = g.chance(1, 2);
+            if with_instance { rep.class("wrapper-with-named-instance"); }
+            std::fs::write(&ds, wrapper_designspace(&ufo_name, skip_export_array(&lib).as_deref(), with_instance)).unwrap();
             compile_path(&ds, &opts)
         }
         mode => {
@@ -224,9 +260,9 @@ pub fn check_ufo(ctx: &Ctx, genome: &[u16]) -> CaseReport {
 
 pub fn parts() -> Vec<Part> {
     vec![
-        Part { name: "glyphs", genome_len: 24, cases_quick: 240, cases_thorough: 3000, threads: 12, max_shrink_iters: 40, check: Box::new(check_glyphs), remote: None },
-        Part { name: "ufo", genome_len: 2400, cases_quick: 240, cases_thorough: 4000, threads: 12, max_shrink_iters: 60, check: Box::new(check_ufo), remote: None },
+        Part { name: "glyphs", genome_len: 24, cases_quick: 700, cases_thorough: 6000, threads: 12, max_shrink_iters: 40, check: Box::new(check_glyphs), remote: None },
+        Part { name: "ufo", genome_len: 2400, cases_quick: 700, cases_thorough: 8000, threads: 12, max_shrink_iters: 60, check: Box::new(check_ufo), remote: None },
     ]
 }
-pub const RULE: &str = "glyphs: every .glyphs fixture of the repository x one route: the same text passed in memory, split by the harness into a .glyphspackage (fontinfo.plist + order.plist + one file per glyph), re-emitted with other indentation / blank lines / spacing, with every dictionary's keys shuffled, with identifier-like tokens quoted, or built by the fontc binary instead of the library; ufo: every .ufo fixture and generated static designs written as a lone UFO x one route: a designspace listing only that UFO (its lib repeating public.skipExportGlyphs), XML attribute order reversed in every .glif, every plist dictionary's keys reversed, or the fontc binary. Bytes must be identical (for the binary: up to the compiler's own version stamp in name id 5), and a build error on one route must be an error on the other. non-trivial = the reference route builds a font of more than 1500 bytes";
+pub const RULE: &str = "glyphs: every .glyphs fixture of the repository x one route: the same text passed in memory, split by the harness into a .glyphspackage (fontinfo.plist + order.plist + one file per glyph), re-emitted with other indentation / blank lines / spacing, with every dictionary's keys shuffled, with identifier-like tokens quoted, or built by the fontc binary instead of the library; ufo: every .ufo fixture and generated static designs written as a lone UFO x one route: a designspace listing only that UFO at the single point of a min=default=max axis (its lib repeating public.skipExportGlyphs), XML attribute order reversed in every .glif, every plist dictionary's keys reversed, or the fontc binary. Bytes must be identical (for the binary: up to the compiler's own version stamp in name id 5), and a build error on one route must be an error on the other. non-trivial = the reference route builds a font of more than 1500 bytes";
 pub const ASSUMPTIONS: &[&str] = &["sources whose feature code include()s other files are skipped and counted: text in memory or a copy elsewhere has no directory to resolve against (documented difference)", "Glyphs fixtures with duplicate glyph names cannot be represented as a package and are skipped for that route", "re-emitted Glyphs text keeps one key = value; statement per line and scalar lists on one line without spaces, as Glyphs writes them; numeric-looking tokens are never quoted", "the wrapper designspace repeats public.skipExportGlyphs, the key fontc documents as read from the designspace lib rather than the UFO lib"];
